@@ -215,8 +215,12 @@ fn command_go(
         time = Some(Duration::from_millis(move_time));
     }
 
+    #[cfg(daniel729_chess_verif)]
+    crate::verif_hooks::sched_point("before_flag_raise");
     // Raise the flag before the timer thread exists, so that the timer cannot lose the race
     search_is_running.store(true, Relaxed);
+    #[cfg(daniel729_chess_verif)]
+    crate::verif_hooks::sched_point("after_flag_raise");
 
     if let Some(time) = time {
         if !infinite {
@@ -231,16 +235,22 @@ fn command_go(
                 let search_is_running = search_is_running.clone();
                 move || {
                     thread::sleep(time);
+                    #[cfg(daniel729_chess_verif)]
+                    crate::verif_hooks::sched_point("timer_wakeup");
                     search_is_running.store(false, Relaxed);
                 }
             });
         }
     }
 
+    #[cfg(daniel729_chess_verif)]
+    crate::verif_hooks::sched_point("before_search_spawn");
     let thread = thread::spawn({
         let data_mutex = data_mutex.clone();
         let search_is_running = search_is_running.clone();
         move || {
+            #[cfg(daniel729_chess_verif)]
+            crate::verif_hooks::sched_point("search_thread_start");
             let mut data = data_mutex.lock().unwrap();
             let (current_game, cache) = data.mut_refs();
             let best_move = get_best_move_until_stop(
@@ -250,15 +260,23 @@ fn command_go(
                 depth,
             );
 
+            #[cfg(daniel729_chess_verif)]
+            crate::verif_hooks::sched_point("after_search_return");
             // Be ready for the next command before the GUI can react to `bestmove`
             search_is_running.store(false, Relaxed);
+            #[cfg(daniel729_chess_verif)]
+            crate::verif_hooks::sched_point("after_flag_clear");
             *current_game = None;
+            #[cfg(daniel729_chess_verif)]
+            crate::verif_hooks::sched_point("after_game_drop");
 
             if let Some(best_move) = best_move {
                 println!("bestmove {}", best_move.uci_notation());
             } else {
                 println!("bestmove none");
             }
+            #[cfg(daniel729_chess_verif)]
+            crate::verif_hooks::sched_point("after_bestmove_print");
         }
     });
 
